@@ -20,7 +20,7 @@ from . import common
 from .common import Ctx
 from . import c09_ref as ref
 from .c09_world import (RealWorld, op_tokens, render_world, KINDS, UNIT_TABLE, units_token, concretise,
-                        base_world_ops, SYMBOLIC_ALPHABET, random_history)
+                        base_world_ops, SYMBOLIC_ALPHABET, random_history, diff_history)
 
 
 def _stream(ops_sym, rw):
@@ -28,6 +28,35 @@ def _stream(ops_sym, rw):
     for sop in ops_sym:
         for op in concretise(sop, rw):
             yield op
+
+
+def _count_diff(ctx: Ctx, op, status, out, exp_status, info):
+    """the distribution of the `difference` calls (branches of the model the generators reach)"""
+    ctx.count("diff:calls")
+    ctx.count("diff:outcome=" + ("ok" if status == "ok" else "raises-" + str(out)) + "/oracle-" + exp_status)
+    if info is None:
+        return
+    ctx.count(f"diff:index-fields={info['index_fields']}")
+    ctx.count("diff:pairs=" + ("0" if info["pairs"] == 0 else "1" if info["pairs"] == 1 else "2-3" if info["pairs"] <= 3 else "4+"))
+    for k in ("duplicate_keys", "one_sided_keys", "other_order"):
+        if info.get(k):
+            ctx.count("diff:" + k)
+    if exp_status != "ok" or "kinds" not in info:
+        return
+    ctx.count(f"diff:nesting-depth={info['nested']}")
+    ctx.count(f"diff:copy-flags=self{int(bool(op.get('cs')))}/other{int(bool(op.get('co')))}")
+    if info["dropped"]:
+        ctx.count("diff:one-sided-fields-dropped")
+    if info["factor"]:
+        ctx.count("diff:unit-factor!=1")
+    if info["not_subtractable"]:
+        ctx.count("diff:bool/text/sigma-field" + ("-copied" if info["copied"] else "-dropped"))
+    for k in sorted(info["kinds"]):
+        ctx.count("diff:kind=" + k)
+    if op["d"] == op["e"]:
+        ctx.count("diff:with-itself")
+    if op["r"] in (op["d"], op["e"]):
+        ctx.count("diff:result-replaces-operand")
 
 
 def run_history(ctx: Ctx, ops_sym, tag: str, corpus: bool = False):
@@ -44,19 +73,25 @@ def run_history(ctx: Ctx, ops_sym, tag: str, corpus: bool = False):
         status, out = rw.apply(op)
         quiet = bool(op.get("setup"))  # set-up operations are checked once, at the end of the set-up
         if status == "ok":
+            if op["op"] == "extend" and str(out).startswith("x"):
+                ctx.count("extend:compared-with-list-of-records-extend")
             impl_out.append("ok:-:~" if quiet else f"ok:{out}:{render_world(rw)}")
         else:
             impl_out.append(f"ERR:{out}")
             stop = True
         # ---- oracle: the reference table, stated on the real code
         exp_status, exp_out = rf.apply(op)
+        if op["op"] == "diff":
+            _count_diff(ctx, op, status, out, exp_status, rf.diff_info)
+        if getattr(rf, "or_fields_used", False):
+            ctx.count("filter:on-<name>_self/_other-fields")
         nviol = ctx.hist.get("oracle_failures", 0)
         if not (quiet and status == "ok" and exp_status == "ok"):
             ref.judge(ctx, op, concrete, status, out, exp_status, exp_out, rw, rf)
         if exp_status != "ok" or status != "ok" or ctx.hist.get("oracle_failures", 0) != nviol:
             stop = True  # the history ends at the first error, skip or violated expectation
     case = {"ops": concrete}
-    nontrivial = sum(1 for o in concrete if o["op"] in ("subset", "extend", "merge", "filter", "del")) >= 1
+    nontrivial = sum(1 for o in concrete if o["op"] in ("subset", "extend", "merge", "filter", "del", "diff")) >= 1
     ctx.case(case, nontrivial=nontrivial)
     ctx.count(f"{tag}:len={sum(1 for o in concrete if o['op'] not in ('new', 'obj', 'add') or o.get('late'))}")
     for o in concrete:
@@ -83,16 +118,30 @@ def run_history(ctx: Ctx, ops_sym, tag: str, corpus: bool = False):
 def run(ctx: Ctx):
     ctx.proof = common.prove("C09")
     rng = ctx.rng
-    ctx.rule = ("operation histories over a world of up to 3 datasets sharing objects: (a) every sequence of "
+    ctx.rule = ("operation histories over a world of up to 4 datasets sharing objects: (a) every sequence of "
                 f"length <= {4 if ctx.thorough else 3} over a symbolic alphabet of {len(SYMBOLIC_ALPHABET)} operations "
-                "(mask/int subsets, extend both ways, merge with stable sort on tie-rich keys, filter, delete, late add) "
+                "(mask/int subsets, extend both ways, merge with stable sort on tie-rich keys, filter, delete, late add, "
+                "difference by the tie-rich key whose result replaces the first dataset) "
                 "applied to a base world with all ten array field types, nested collections and shared other/ref_pos "
                 "objects; (b) random histories up to length 25 with 0..8 rows, 1-/2-D float/bool/text/sigma fields, "
-                "missing fields, differing units, anonymous and shared references; a history is non-trivial when it "
-                "contains at least one row-moving operation; distinct by its canonical concrete operation list")
+                "missing fields, differing units, anonymous and shared references, differences with 0..2 index fields "
+                "into any slot, sometimes a field-less 0-row accumulator dataset that the others are merged into; "
+                "(c) histories around difference: 0..3 index fields (text/float/bool/time) whose key tuples come from "
+                "a small universe (other row order, duplicate keys, one-sided keys, nothing in common), value fields of "
+                "every type at the top level and in collections nested to depth 2, one-sided fields, differing / "
+                "incompatible / one-sided units, both copy flags, result into a new slot or replacing an operand, then "
+                "up to 3 operations on the result (subsets, self-extend, positional self-difference, sort, the reverse "
+                "difference joined on, delete); a history is non-trivial when it "
+                "contains at least one row-moving operation; distinct by its canonical concrete operation list; after "
+                "every operation the WHOLE world (all datasets) is compared")
     ctx.trusted += ["pint unit factors enter the model as a table computed from the real Unit() on this run",
                     "time-scale / position-system conversion inside insert is not modelled (generators keep them equal)",
-                    "NumPy fancy indexing and np.insert modelled as list pick / splice"]
+                    "NumPy fancy indexing and np.insert modelled as list pick / splice",
+                    "np.intersect1d(return_indices=True) on object-dtype records modelled as: distinct common key tuples "
+                    "in ascending field-by-field order, each with its first row in either dataset",
+                    "difference outside the modelled fragment (model answers `unsupported`, oracle skips): fields of "
+                    "different types under one name, NumPy broadcasting of unequal shapes, NaN / nested index fields, "
+                    "differences of empty epochs"]
     ctx.assumptions += ["a history ends at the first operation that raises",
                         "all values are exactly representable (integers / dyadic rationals)"]
     # corpus first
@@ -112,6 +161,9 @@ def run(ctx: Ctx):
     # (b) random
     for _ in range(ctx.budget(300, 4000)):
         run_history(ctx, random_history(rng), "random")
+    # (c) histories around `difference`
+    for _ in range(ctx.budget(350, 6000)):
+        run_history(ctx, diff_history(rng), "difference")
 
 
 def replay(payload):
